@@ -313,6 +313,26 @@ type EncOpts struct {
 	KeepRaw bool
 }
 
+// Count returns the number of values in the tree, stopping early once limit is exceeded.
+func Count(v *Value, limit int) int {
+	n := 0
+	var walk func(v *Value)
+	walk = func(v *Value) {
+		if v == nil || n > limit {
+			return
+		}
+		n++
+		for _, e := range v.Elems {
+			walk(e)
+		}
+		for _, m := range v.Members {
+			walk(m.Val)
+		}
+	}
+	walk(v)
+	return n
+}
+
 func Encode(v *Value, o EncOpts) []byte {
 	var sb strings.Builder
 	if o.RandWS && o.R != nil {
